@@ -93,16 +93,13 @@ Qed.
 Section Ext.
   Variables (t : toc) (d : xdev).
   Let xs := ext_ids t.
-  Hypothesis Hnd : NoDup (map e_ident (values t)).
+  Hypothesis Hinj : forall e e', In e (values t) -> In e' (values t) -> e_ident e = e_ident e' -> e = e'.
   Hypothesis Hrange : forall e, In e (values t) ->
     0 <= e_ident e < 65536 /\ (e_extended e = true -> exists b, assoc (e_ident e) d = Some b).
 
   Definition pers_id (i : Z) : bool := match assoc i d with Some 1 => true | _ => false end.
   Definition marks (l : list Z) (t0 : toc) : toc :=
     fold_left (fun t1 i => if pers_id i then map_toc (mark i) t1 else t1) l t0.
-
-  Lemma xs_nodup : NoDup xs.
-  Proof. unfold xs, ext_ids. now apply NoDup_map_filter. Qed.
 
   Lemma xs_elem i : In i xs -> exists e, In e (values t) /\ e_extended e = true /\ e_ident e = i.
   Proof.
@@ -273,7 +270,7 @@ Section Ext.
       - apply existsb_exists in Ex. destruct Ex as (i & Hi & Hpi). apply andb_true_iff in Hpi. destruct Hpi as [Hp Heq].
         assert (e_ident e = i) by lia. subst i.
         destruct (xs_elem _ Hi) as (e' & Hin' & Hx' & Hid').
-        assert (e' = e) by (eapply (NoDup_map_inj e_ident); eauto). subst e'. now rewrite Hx', Hp.
+        assert (e' = e) by (apply Hinj; auto). subst e'. now rewrite Hx', Hp.
       - destruct (e_extended e) eqn:Hx; [|reflexivity]. cbn [andb].
         destruct (pers_id (e_ident e)) eqn:Hp; [|reflexivity].
         assert (Hin : In (e_ident e) xs).
@@ -297,7 +294,9 @@ Lemma persistent_marker : forall (t : toc) (d : xdev) (evs : list aev),
                                  then set_pers e else e) t).
 Proof.
   intros t d evs Hnd Hr Hadm. unfold xfetch, xstart.
-  pose proof (XInv_xrun t d Hr evs) as H.
+  assert (Hinj : forall e e', In e (values t) -> In e' (values t) -> e_ident e = e_ident e' -> e = e')
+    by (intros a b Ha Hb E; exact (NoDup_map_inj e_ident (values t) a b Hnd Ha Hb E)).
+  pose proof (XInv_xrun t d Hinj Hr evs) as H.
   assert (H0 : let '(s0, o0) := match ext_ids t with
                                 | [] => (mkX [] (-1) (-1) t false false, [Finished])
                                 | i :: q => (mkX q i (Z.of_nat (S (List.length q))) t true true, [Send (ext_req i)])
@@ -311,7 +310,167 @@ Proof.
   destruct H as [done cur rest o Hxs Hs Hf Hra | o Hne Hs Hf Hra | o Hnil Hs Hf Hra]; rewrite ?Hf.
   - repeat split; auto; try lia; discriminate.
   - split; [exact Hra|split; [lia|]]. intros _. split; [exact Hs|].
-    cbn [x_toc]. now rewrite (marks_final t d Hnd Hr).
+    cbn [x_toc]. now rewrite (marks_final t d Hinj Hr).
   - split; [exact Hra|split; [lia|]]. intros _. rewrite Hnil. split; [exact Hs|].
-    cbn [x_toc]. pose proof (marks_final t d Hnd Hr) as Hm. unfold final_mark, pers_id in Hm. rewrite <- Hm, Hnil. reflexivity.
+    cbn [x_toc]. pose proof (marks_final t d Hinj Hr) as Hm. unfold final_mark, pers_id in Hm. rewrite <- Hm, Hnil. reflexivity.
 Qed.
+
+(* ---------------------------------------------------------------- stale extended-type replies (earlier session) *)
+
+(* an extended-type reply left over from an earlier session is ignored when it is for another parameter id
+   than the one in flight (any answer byte, any trailing bytes) *)
+Definition stale_ext_ok (s : xstate) (dt : list Z) : Prop :=
+  exists lo hi b rest, dt = 2 :: lo :: hi :: b :: rest /\ le_val [lo; hi] <> x_req s.
+
+Definition xev_ok (s : xstate) (ev : aev) : Prop :=
+  match ev with
+  | Deliver _ => True
+  | Raw ch dt => not_ext_reply ch dt \/ (ch = 3 /\ stale_ext_ok s dt)
+  end.
+
+Fixpoint xall_ok (d : xdev) (s : xstate) (outs : list out) (evs : list aev) : Prop :=
+  match evs with
+  | [] => True
+  | ev :: evs' =>
+      xev_ok s ev /\
+      match xpacket_of d outs ev with
+      | None => xall_ok d s outs evs'
+      | Some (ch, dt) => let '(s', o) := x_on_packet s ch dt in xall_ok d s' (outs ++ Got ch dt :: o) evs'
+      end
+  end.
+
+Lemma stale_ext_ignored s dt : stale_ext_ok s dt -> x_on_packet s 3 dt = (s, []).
+Proof.
+  intros (lo & hi & b & rest & -> & Hne). unfold x_on_packet. destruct (x_reg s); [|reflexivity].
+  cbn [negb]. change (3 =? 3) with true. change (2 =? 2) with true. cbn [negb tl firstn List.length].
+  change (2 <? 2)%nat with false. destruct (x_req s =? le_val [lo; hi]) eqn:E; [lia|reflexivity].
+Qed.
+
+Lemma XInv_xrun' t d :
+  (forall e e', In e (values t) -> In e' (values t) -> e_ident e = e_ident e' -> e = e') ->
+  (forall e, In e (values t) ->
+     0 <= e_ident e < 65536 /\ (e_extended e = true -> exists b, assoc (e_ident e) d = Some b)) ->
+  forall evs s o, XInv t d s o -> xall_ok d s o evs -> let '(s', o') := xrun d s o evs in XInv t d s' o'.
+Proof.
+  intros Hinj Hr. induction evs as [|ev evs IH]; intros s o HI Hall; cbn [xrun]; [exact HI|].
+  cbn [xall_ok] in Hall. destruct Hall as [Hev Hrest].
+  assert (Hst : match xpacket_of d o ev with
+                | None => True
+                | Some (ch, dt) => let '(s', o') := x_on_packet s ch dt in XInv t d s' (o ++ Got ch dt :: o')
+                end).
+  { destruct ev as [k|ch dt].
+    - exact (XInv_step t d Hinj Hr s o (Deliver k) HI I).
+    - destruct Hev as [Hn|[-> Hs]].
+      + exact (XInv_step t d Hinj Hr s o (Raw ch dt) HI Hn).
+      + cbn [xpacket_of]. rewrite (stale_ext_ignored s dt Hs).
+        change (o ++ [Got 3 dt]) with (o ++ [Got 3 dt]). now apply XInv_got. }
+  destruct (xpacket_of d o ev) as [[ch dt]|].
+  - destruct (x_on_packet s ch dt) as [s1 o1]. now apply IH.
+  - now apply IH.
+Qed.
+
+Lemma persistent_marker_stale : forall (t : toc) (d : xdev) (evs : list aev),
+  (forall e e', In e (values t) -> In e' (values t) -> e_ident e = e_ident e' -> e = e') ->
+  (forall e, In e (values t) ->
+     0 <= e_ident e < 65536 /\ (e_extended e = true -> exists b, assoc (e_ident e) d = Some b)) ->
+  (let '(s0, o0) := xstart t in xall_ok d s0 o0 evs) ->
+  let '(s, o) := xfetch t d evs in
+  raised o = [] /\ (finished_count o <= 1)%nat /\
+  (finished_count o = 1%nat ->
+     sends o = map ext_req (ext_ids t) /\
+     x_toc s = map_toc (fun e => if e_extended e && match assoc (e_ident e) d with Some 1 => true | _ => false end
+                                 then set_pers e else e) t).
+Proof.
+  intros t d evs Hinj Hr Hall. unfold xfetch, xstart in *.
+  pose proof (XInv_xrun' t d Hinj Hr evs) as H.
+  assert (H0 : let '(s0, o0) := match ext_ids t with
+                                | [] => (mkX [] (-1) (-1) t false false, [Finished])
+                                | i :: q => (mkX q i (Z.of_nat (S (List.length q))) t true true, [Send (ext_req i)])
+                                end in XInv t d s0 o0).
+  { destruct (ext_ids t) as [|i q] eqn:E.
+    - apply XNone; auto.
+    - apply (XRun t d [] i q); auto. }
+  destruct (match ext_ids t with [] => _ | i :: q => _ end) as [s0 o0].
+  specialize (H s0 o0 H0 Hall).
+  destruct (xrun d s0 o0 evs) as [s o].
+  pose proof (marks_final t d Hinj Hr) as Hm. unfold final_mark, pers_id in Hm.
+  destruct H as [done cur rest o Hxs Hs Hf Hra | o Hne Hs Hf Hra | o Hnil Hs Hf Hra]; rewrite ?Hf.
+  - repeat split; auto; try lia; discriminate.
+  - split; [exact Hra|split; [lia|]]. intros _. split; [exact Hs|]. cbn [x_toc]. exact Hm.
+  - split; [exact Hra|split; [lia|]]. intros _. rewrite Hnil. split; [exact Hs|].
+    cbn [x_toc]. rewrite <- Hm, Hnil. reflexivity.
+Qed.
+
+(* protocol limitation: a stale extended-type reply for the very id in flight is taken as the answer *)
+Definition lim_ptoc : toc :=
+  [([112], [([97], mkElem ParamCls 0 [112] [97] "uint8_t" "<B" 0 true false)])].
+
+Lemma stale_ext_indistinguishable :
+  let '(s, o) := xfetch lim_ptoc [(0, 0)] [Raw 3 [2; 0; 0; 1]; Deliver 0] in
+  finished_count o = 1%nat /\
+  option_map e_persistent (get_element [112] [97] (x_toc s)) = Some true.
+Proof. vm_compute. split; reflexivity. Qed.
+
+(* ---------------------------------------------------------------- the table at `connected` *)
+
+Lemma dget_map_x {V W} (f : V -> W) k dd :
+  dget k (map (fun kv => (fst kv, f (snd kv))) dd) = option_map f (dget k dd).
+Proof.
+  induction dd as [|[k' v] dd IH]; [reflexivity|]. cbn [map dget fst snd].
+  destruct (zlist_eqb k k'); [reflexivity|exact IH].
+Qed.
+
+Lemma get_element_map_toc f g n t : get_element g n (map_toc f t) = option_map f (get_element g n t).
+Proof.
+  unfold get_element, map_toc.
+  rewrite (dget_map_x (fun dd => map (fun ne => (fst ne, f (snd ne))) dd)).
+  destruct (dget g t) as [dd|]; cbn [option_map]; [apply dget_map_x|reflexivity].
+Qed.
+
+Lemma spec_ident_inj c items :
+  forall e e', In e (values (spec_toc c items)) -> In e' (values (spec_toc c items)) -> e_ident e = e_ident e' -> e = e'.
+Proof.
+  intros e e' He He' Hid.
+  destruct (In_get_element e _ (wf_toc_of_elems _) He) as (g & n & Hg).
+  destruct (In_get_element e' _ (wf_toc_of_elems _) He') as (g' & n' & Hg').
+  destruct (get_spec_inv c items g n e Hg) as (j & it & Hj & -> & _).
+  destruct (get_spec_inv c items g' n' e' Hg') as (j' & it' & Hj' & -> & _).
+  rewrite !spec_elem_ident in Hid. assert (j = j') by lia. subst j'. congruence.
+Qed.
+
+(* Param.refresh_toc as a whole: download (any admissible schedule incl. stale packets) then the extended-type
+   phase (any admissible schedule incl. stale replies for other ids) on a device whose answer for extended
+   parameter i is 1 iff it is persistent.  When the second completion fires — the moment `connected` is
+   signalled — every parameter of the device is in the table with its index, type, access, extended flag AND the
+   device's persistence. *)
+Lemma param_table_at_connected : forall items (d : xdev) xevs i it,
+  NoDup (map key items) -> Z.of_nat (List.length items) < 65536 ->
+  (forall j jt, nth_error items j = Some jt -> di_ext jt = true ->
+                assoc (Z.of_nat j) d = Some (if di_pers jt then 1 else 0)) ->
+  nth_error items i = Some it ->
+  (let '(s0, o0) := xstart (spec_toc ParamCls items) in xall_ok d s0 o0 xevs) ->
+  let '(s, o) := xfetch (spec_toc ParamCls items) d xevs in
+  finished_count o = 1%nat ->
+  get_element (di_group it) (di_name it) (x_toc s) =
+  Some (let e := spec_elem ParamCls (Z.of_nat i) it in if di_ext it && di_pers it then set_pers e else e).
+Proof.
+  intros items d xevs i it Hnd Hn Hd Hi Hall.
+  assert (Hr : forall e, In e (values (spec_toc ParamCls items)) ->
+     0 <= e_ident e < 65536 /\ (e_extended e = true -> exists b, assoc (e_ident e) d = Some b)).
+  { intros e He. destruct (In_get_element e _ (wf_toc_of_elems _) He) as (g & n & Hg).
+    destruct (get_spec_inv ParamCls items g n e Hg) as (j & jt & Hj & -> & _).
+    assert (j < List.length items)%nat by (apply nth_error_Some; congruence).
+    rewrite spec_elem_ident. split; [lia|]. cbn [spec_elem e_extended]. intros Hx. eexists. now apply (Hd j jt). }
+  pose proof (persistent_marker_stale (spec_toc ParamCls items) d xevs (spec_ident_inj ParamCls items) Hr Hall) as H.
+  destruct (xfetch (spec_toc ParamCls items) d xevs) as [s o]. destruct H as (_ & _ & H).
+  intros Hf. destruct (H Hf) as [_ Ht]. rewrite Ht, get_element_map_toc.
+  rewrite (get_spec ParamCls items i it Hnd Hi). cbn [option_map]. f_equal.
+  cbn [spec_elem e_extended e_ident].
+  destruct (di_ext it) eqn:Ex; cbn [andb]; [|reflexivity].
+  rewrite (Hd i it Hi Ex). destruct (di_pers it); reflexivity.
+Qed.
+
+(* an abandoned extended-type fetch is silent: whatever arrives in a later session (its own late answer, the new
+   session's answers for the same ids) changes nothing and fires nothing *)
+Lemma abandoned_ext_fetch_silent s ch dt : x_on_packet (x_disconnect s) ch dt = (x_disconnect s, []).
+Proof. reflexivity. Qed.
